@@ -291,9 +291,155 @@ class Errored(Contract):
                 ('cleared', And(is_none(new.after), is_none(new.match), is_none(new.match_index)))]
 
 
+class ExpectLoopInv(LoopSpec):
+    """while True: read, search.  Invariant: buffer invariant, accounting (pending text is what was
+    pending at entry plus what has been received since), and the deadline bookkeeping."""
+    def vars(self, v):
+        k = io_kind(v.l.spawn._before)
+        d = {'incoming': TStr(k), 'idx': T.NoneT}
+        if v.l.timeout is not None:
+            d['timeout'] = T.Real
+        return d
+
+    def ghost(self, v):
+        return {'R': TStr(io_kind(v.l.spawn._before)), 'clk': T.Real}
+
+    def modifies(self, v):
+        sp = v.l.spawn
+        k = io_kind(sp._before)
+        return [(sp, '_buffer', TIo(k)), (sp._before, 'content', TStr(k)), (sp._before, 'pos', T.Int)]
+
+    def invariant(self, v):
+        sp = v.l.spawn
+        old = v.old.self.spawn
+        out = [('inv', INV_buf(sp)),
+               ('accounting', eq(pend_of(sp), cat(pend_of(old), v.g['R']))),
+               ('nothing-reported', And(same(sp.before, old.before), same(sp.after, old.after),
+                                        same(sp.match, old.match), same(sp.match_index, old.match_index))),
+               ('clock-forward', v.g['clk'] >= v.g0['clk'])]
+        if v.old.timeout is not None:
+            T0 = v.old.timeout
+            d = sp.delayafterread
+            slack = 0 if d is None else d
+            out += [('deadline', And(eq(v.l.end_time, v.g0['clk'] + T0),
+                                     eq(v.l.timeout, v.l.end_time - v.g['clk']),
+                                     v.g['clk'] - v.g0['clk'] <= smax(T0, 0) + slack))]
+        return out
+
+
+class ExpectLoop(Contract):
+    name = 'pexpect.expect.Expecter.expect_loop'
+    props = ('C01', 'C04', 'C05')
+    loops = {0: ExpectLoopInv()}
+
+    def shape(self, b):
+        sp, kind = spawn_shape(b, loop=True)
+        se = searcher_shape(b)
+        W = b.opt('W', lambda: b.int('W'))
+        L = b.opt('lookback', lambda: b.int('lookback'))
+        me = b.obj('self', 'pexpect.expect.Expecter', closed=True, spawn=sp, searcher=se,
+                   searchwindowsize=W, lookback=L)
+        b.ghost('R', '')
+        b.ghost('clk', b.real('clk0'))
+        return dict(self=me, timeout=b.opt('timeout', lambda: b.real('timeout')))
+
+    def requires(self, v):
+        me = v.a.self
+        d = me.spawn.delayafterread
+        return [('inv', INV_buf(me.spawn)), ('W-domain', W_ok(me.searchwindowsize)),
+                ('L-domain', True if me.lookback is None else me.lookback >= 0),
+                ('delay-nonneg', True if d is None else d >= 0),
+                ('maxread-positive', me.spawn.maxread >= 1)]
+
+    def outcomes(self, v):
+        return [Ret(T.Int, 'hit'), Ret(T.Int, 'eof-listed'), Ret(T.Int, 'timeout-listed'),
+                Raises('EOF'), Raises('TIMEOUT'), Raises('OSError', 'error')]
+
+    def exits(self, v):
+        return ('EOF', 'TIMEOUT', 'OSError')
+
+    def modifies(self, v, out):
+        me = v.old.self
+        sp, se = me.spawn, me.searcher
+        k = io_kind(sp._before)
+        lab = out.label
+        m = [(sp, '_buffer', TIo(k)), (sp, '_before', TIo(k)), (sp, 'before', TStr(k))]
+        if lab == 'hit':
+            m += [(se, 'start', T.Int), (se, 'end', T.Int), (se, 'match', T.Any),
+                  (sp, 'after', TStr(k)), (sp, 'match', T.Any), (sp, 'match_index', T.Int)]
+        elif lab in ('eof-listed', 'EOF'):
+            m += [(sp, 'after', TCls('EOF'))]
+            m += [(sp, 'match', TCls('EOF')), (sp, 'match_index', T.Int)] if lab == 'eof-listed' else \
+                 [(sp, 'match', T.NoneT), (sp, 'match_index', T.NoneT)]
+        elif lab in ('timeout-listed', 'TIMEOUT'):
+            m += [(sp, 'after', TCls('TIMEOUT'))]
+            m += [(sp, 'match', TCls('TIMEOUT')), (sp, 'match_index', T.Int)] if lab == 'timeout-listed' else \
+                 [(sp, 'match', T.NoneT), (sp, 'match_index', T.NoneT)]
+        else:
+            m += [(sp, 'after', T.NoneT), (sp, 'match', T.NoneT), (sp, 'match_index', T.NoneT)]
+        return m
+
+    def effects(self, v):
+        # a caller sees: some text rx was received, some time dt passed
+        k = io_kind(v.old.self.spawn._before)
+        v.rx = v.draw(TStr(k), 'rx')
+        v.dt = v.draw(T.Real, 'dt')
+        v.g['R'] = cat(v.g['R'], v.rx)
+        v.g['clk'] = v.g['clk'] + v.dt
+
+    def ensures(self, v):
+        me = v.old.self
+        old, new = me.spawn, v.new.self.spawn
+        se = me.searcher
+        EOFc, TOc = ClassConst('EOF'), ClassConst('TIMEOUT')
+        if getattr(v, 'rx', None) is None:      # proof side: the function's own ghosts (R starts empty)
+            rx, dt = v.g['R'], v.g['clk'] - v.g0['clk']
+        else:
+            rx, dt = v.rx, v.dt
+        total = cat(pend_of(old), rx)
+        T0 = v.old.timeout
+        out = [('inv', INV_buf(new))]
+        is_eof = eq(new.after, EOFc) is True
+        is_to = eq(new.after, TOc) is True
+        if v.raised is None and not is_eof and not is_to:
+            # a text pattern matched
+            out += [('C01:hit.conserve', eq(cat(new.before, new.after, pend_of(new)), total)),
+                    ('C01:hit.buffer-is-pending', eq(sbuf_of(new), pend_of(new))),
+                    ('C02+C04:hit.match', And(same(new.match, v.new.self.searcher.match), eq(new.match_index, v.result),
+                                              v.result >= 0))]
+        elif is_eof:
+            out += [('C01+C04:eof.before-is-all', eq(new.before, total)),
+                    ('C01+C04:eof.pending-cleared', And(eq(pend_of(new), ''), eq(sbuf_of(new), ''))),
+                    ('C04:eof.listed-or-raised',
+                     And(se.eof_index >= 0, eq(v.result, se.eof_index), eq(new.match, EOFc), eq(new.match_index, se.eof_index))
+                     if v.raised is None else
+                     And(v.raised == 'EOF', Not(se.eof_index >= 0), is_none(new.match), is_none(new.match_index)))]
+        elif is_to:
+            out += [('C01+C04:timeout.before-is-all', eq(new.before, total)),
+                    ('C01:timeout.consumes-nothing', eq(pend_of(new), total)),
+                    ('C04:timeout.listed-or-raised',
+                     And(se.timeout_index >= 0, eq(v.result, se.timeout_index), eq(new.match, TOc),
+                         eq(new.match_index, se.timeout_index))
+                     if v.raised is None else
+                     And(v.raised == 'TIMEOUT', Not(se.timeout_index >= 0), is_none(new.match), is_none(new.match_index))),
+                    # C05: never TIMEOUT without a finite timeout, and never before it has elapsed
+                    ('C05:timeout.only-with-finite-timeout', T0 is not None),
+                    ('C05:timeout.not-early', True if T0 is None else dt >= T0)]
+        else:
+            out += [('C01+C04:error.before-is-all', eq(new.before, total)),
+                    ('C01:error.consumes-nothing', eq(pend_of(new), total)),
+                    ('C04:error.reraised', And(v.raised is not None, is_none(new.after), is_none(new.match),
+                                               is_none(new.match_index)))]
+        if T0 is not None:
+            d = old.delayafterread
+            out.append(('C05:deadline.overall-bound', dt <= smax(T0, 0) + (0 if d is None else d)))
+        out.append(('C05:clock-forward', dt >= 0))
+        return out
+
+
 def register(reg):
     reg.add_iface('iface:searcher', 'search', SearcherSearch)
     reg.add_iface('iface:searcher', '__str__', SearcherStr)
-    for c in (DoSearch, ExistingData, NewData, Eof, Timeout, Errored):
+    for c in (DoSearch, ExistingData, NewData, Eof, Timeout, Errored, ExpectLoop):
         reg.add(c)
     reg.inline_ok.update({'pexpect.spawnbase.SpawnBase._get_buffer'})
